@@ -391,6 +391,9 @@ func (e *Env) close() {
 // settle gives the remote readers time to observe what corebgp wrote last (Cease, EOF) so that the
 // trace is complete before it is dumped.
 func (e *Env) settle() {
+	// a connection corebgp dialled just before it was stopped may be accepted by the remote only now (and is
+	// then closed by corebgp): give the listener goroutines a moment before looking
+	time.Sleep(30 * time.Millisecond)
 	deadline := time.Now().Add(1500 * time.Millisecond)
 	for time.Now().Before(deadline) {
 		open := 0
